@@ -88,6 +88,8 @@ class ClusterJob:
         self.exit_code = 0
         self.acct_lag = 0  # number of accounting queries still answered empty
         self.kill_after = None
+        self.kill_in_write = None  # kill the payload inside its n-th cut file write
+        self.writes_seen = 0
         self.history = []
         self.requeues = 0
         self.no_requeue = False
@@ -110,6 +112,7 @@ class FakeCluster:
         self.verdict_plan = None  # fn(job) -> list of verdicts
         self.errors = []  # protocol violations by the client (bad argv ...)
         self.max_lag = ch.pick([0, 2, 2, 4], "max-lag")
+        env.sim.point_hook = self._on_point
 
     # ------------------------------------------------------------------ entry
     async def exec(self, *cmd, stdout=None, stderr=None, **kw):
@@ -141,8 +144,15 @@ class FakeCluster:
         verdict = job.lives[min(job.life, len(job.lives) - 1)]
         job.verdict = verdict
         job.kill_after = None
+        job.kill_in_write, job.writes_seen = None, 0
         if verdict in ("CANCELLED", "TIMEOUT", "PREEMPTED", "NODE_FAIL", "EVICTED"):
-            job.kill_after = self.ch.pick([0, 3, 40, 90, 150, 210, 400], "kill-after")
+            job.kill_after = self.ch.pick([0, 3, 40, 90, 150, 210, 400, -1, -1, -1], "kill-after")
+            if job.kill_after == -1:
+                # the node dies while the payload is in the middle of writing a file (the
+                # n-th write that the simulated disk performs in more than one piece):
+                # leaves a torn record / result behind
+                job.kill_in_write = self.ch.randint(1, 8, "kill-in-write")
+                job.kill_after = 10**9
         job.history.append(f"life{job.life}:{verdict}")
 
     def poll(self):
@@ -170,7 +180,8 @@ class FakeCluster:
         for t, argv in enumerate(argvs):
             err = job.err.replace("%j", str(job.id)) if job.err else None
             name = f"x{job.id}_{job.life}_{t}"
-            p = sim.spawn(name, _payload, (code, argv, err))
+            over = {"stop_kinds": ("body", "wchunk")} if job.kill_in_write is not None else {}
+            p = sim.spawn(name, _payload, (code, argv, err), **over)
             p.tags["cluster_job"] = job.id
             job.procs.append(p)
 
@@ -187,6 +198,18 @@ class FakeCluster:
         with _rt.real_open(toks[1]) as f:
             code = f.read()
         return code, [[str(i + 1)] for i in range(job.ntasks)]
+
+    def _on_point(self, p):
+        """called after every step of every simulated process"""
+        jid = p.tags.get("cluster_job") if hasattr(p, "tags") else None
+        job = self.jobs.get(str(jid)) if jid is not None else None
+        if job is None or job.kill_in_write is None or p.state != "ready" or not p.pending:
+            return
+        if p.pending[0] == "wchunk" and p.pending[1][1] >= 1 and p in job.procs:
+            job.writes_seen += 1
+            if job.writes_seen >= job.kill_in_write:
+                self.env.sim.kill(p, "scheduler-kill-in-write")
+                self.env.sim.fault("kill_inside_write")
 
     def _check_running(self, job):
         sim = self.env.sim
